@@ -3,7 +3,7 @@
 cd /verif
 pat="${1:-*-r2-*}"
 for d in seeded/$pat/; do
-  name=$(basename "$d"); prop=$(echo "$name" | cut -c1-3)
+  name=$(basename "$d"); prop=$(echo "$name" | cut -c1-3); [ -f "$d/check_with" ] && prop=$(cat "$d/check_with")
   [ -f "$d/patch.diff" ] || continue
   [ -s "$d/patch.diff" ] || { echo "$name: empty patch"; continue; }
   if ! git -C /repo apply --check "/verif/$d/patch.diff" 2>/dev/null; then echo "$name: patch does not apply"; continue; fi
